@@ -1,4 +1,4 @@
-CONSTANTS Variant = "std"  MaxSum = 8  MaxIns = 3  MaxPays = 4  MaxFee = 3
+CONSTANTS Variant = "std"  MaxSum = 7  MaxIns = 3  MaxPays = 4  MaxFee = 2
           ScaleKs = {12}  ScaleRs = {0}
           SrcPatterns = {"own", "shared"}  ToPatterns = {"same"}
           EmitScaled = FALSE
